@@ -152,7 +152,7 @@ pub fn open_store(bytes: Vec<u8>, cached: bool, tmp: &str) -> Result<Box<dyn Sto
 }
 
 /// model value (set of strings) -> concrete primitive; `bad` = a stream still pointing into the source
-fn concretise(v: &Value, bad: &Primitive) -> Primitive {
+pub fn concretise(v: &Value, bad: &Primitive) -> Primitive {
     let ks: Vec<&str> = v.as_array().unwrap().iter().map(|x| x.as_str().unwrap()).collect();
     if ks == ["#I"] {
         return Primitive::Integer(77);
@@ -169,7 +169,7 @@ fn concretise(v: &Value, bad: &Primitive) -> Primitive {
 }
 
 /// concrete primitive -> model value (sorted list of strings)
-fn abstract_val(s: &dyn Store, r: &Result<Primitive>) -> Value {
+pub fn abstract_val(s: &dyn Store, r: &Result<Primitive>) -> Value {
     match r {
         Ok(Primitive::Dictionary(d)) => {
             let mut ks: Vec<String> = d.iter().map(|(k, _)| k.as_str().to_string()).collect();
